@@ -828,3 +828,36 @@ Proof.
   - intros b Hb. rewrite (assign_rtl_bits ss) by auto.
     destruct (wr curr lhs i b) as [k|] eqn:E; [|reflexivity]. exfalso. apply Hni. eapply wr_sigs; eauto.
 Qed.
+
+(* ---------- C05: a memory row behaves like a signal of the row's shape under testbench writes ---------- *)
+Theorem tb_row_write_eq_sig s old start stop rhs : wf_shape s = true -> in_range s old ->
+  0 <= start <= stop -> stop <= width s ->
+  tb_row_write s old start stop rhs = tb_sig_write s old start stop rhs.
+Proof.
+  intros Hwf Hold Hs Hstop. rewrite tb_sig_write_norm by auto. unfold tb_row_write. cbv zeta.
+  set (mask := Z.shiftl 1 stop - Z.shiftl 1 start).
+  set (v := Z.lor (Z.land (Z.shiftl rhs start) mask) (Z.land old (Z.lnot mask))).
+  assert (Hv : Z.lor (Z.land old (Z.lnot mask)) (Z.land (Z.shiftl rhs start) mask) = v) by (unfold v; apply Z.lor_comm).
+  rewrite Hv.
+  assert (Hbits : forall i, 0 <= i -> Z.testbit v i = if (start <=? i) && (i <? stop) then Z.testbit rhs (i - start) else Z.testbit old i).
+  { intros i Hi. unfold v, mask. rewrite Z.lor_spec, !Z.land_spec, Z.lnot_spec, testbit_range_mask, Z.shiftl_spec by lia.
+    destruct ((start <=? i) && (i <? stop)); simpl.
+    - rewrite andb_true_r, andb_false_r. apply orb_false_r.
+    - rewrite andb_false_r, andb_true_r. reflexivity. }
+  pose proof (proj1 (in_range_bits s old Hwf) Hold) as Hob.
+  unfold wf_shape in Hwf. unfold norm. destruct (sgn s) eqn:Es.
+  - rewrite Z.shiftl_1_l, land_pow2_test, negb_involutive by lia.
+    apply Z.bits_inj'; intros i Hi. rewrite testbit_sext by lia.
+    destruct (Z.testbit v (width s - 1)) eqn:Eb.
+    + rewrite Z.lor_spec, shiftl_m1, testbit_neg_pow2 by lia.
+      destruct (i <? width s) eqn:E.
+      * replace (width s <=? i) with false by lia. apply orb_false_r.
+      * replace (width s <=? i) with true by lia. rewrite orb_true_r. auto.
+    + rewrite mask_land, testbit_mask by lia. destruct (i <? width s) eqn:E; simpl; auto.
+  - (* unsigned: v already has no bits at or above the width *)
+    symmetry. apply Z.bits_inj'; intros i Hi. rewrite testbit_mask by lia.
+    destruct (i <? width s) eqn:E; simpl; auto.
+    symmetry. rewrite Hbits by lia.
+    replace ((start <=? i) && (i <? stop)) with false by lia.
+    rewrite (Hob i ltac:(lia)). reflexivity.
+Qed.
